@@ -226,13 +226,16 @@ def rho(A, f, w, n, pred=None):
     raise KeyError(k)
 
 
-def sat(A, f, w, n):
-    """Boolean satisfaction signal (list of n A-booleans); numeric sub-terms via rho."""
+def sat(A, f, w, n, truth=None):
+    """Boolean satisfaction signal (list of n A-booleans); numeric sub-terms via rho.
+    truth: optional dict var -> list of n Booleans; then a bare variable is an atom with that truth value."""
     f = T(f)
     k = f[0]
     R = range(n)
     if k == 'raw':
-        return sat(A, f[2], w, n)
+        return sat(A, f[2], w, n, truth)
+    if k == 'var' and truth is not None:
+        return list(truth[f[1]])
     if k in PRED:
         p = rho(A, f[1], w, n)
         q = rho(A, f[2], w, n)
@@ -247,10 +250,10 @@ def sat(A, f, w, n):
         # callers only use sat on formulas whose atoms are predicates.
         raise ValueError('sat of a numeric term')
     if k in UN or k in UNT:
-        p = sat(A, f[1], w, n)
+        p = sat(A, f[1], w, n, truth)
     else:
-        p = sat(A, f[1], w, n)
-        q = sat(A, f[2], w, n)
+        p = sat(A, f[1], w, n, truth)
+        q = sat(A, f[2], w, n, truth)
     And, Or, Not, B = A.And, A.Or, A.Not, A.bool
     if k == 'not': return [Not(p[t]) for t in R]
     if k == 'and': return [And(p[t], q[t]) for t in R]
@@ -293,10 +296,10 @@ def sat(A, f, w, n):
         return [Or(*[And(q[tp], *[p[x] for x in range(t, tp)])
                      for tp in range(t + a, min(t + b, n - 1) + 1)]) for t in R]
     if k == 'unless':
-        return sat(A, ('or', ('always', f[1]), ('until', f[1], f[2])), w, n)
+        return sat(A, ('or', ('always', f[1]), ('until', f[1], f[2])), w, n, truth)
     if k == 'unless_t':
         a, b = f[3], f[4]
-        return sat(A, ('or', ('always_t', f[1], 0, b), ('until_t', f[1], f[2], a, b)), w, n)
+        return sat(A, ('or', ('always_t', f[1], 0, b), ('until_t', f[1], f[2], a, b)), w, n, truth)
     raise KeyError(k)
 
 
